@@ -5,6 +5,7 @@ use sea_query::{
 
 use vespertide_core::{
     ColumnDef, ColumnType, ComplexColumnType, ReferenceAction, SimpleColumnType, TableConstraint,
+    TableDef,
 };
 
 use super::create_table::build_create_table_for_backend;
@@ -368,6 +369,41 @@ pub fn build_sea_column_def_with_table(
     }
 
     col
+}
+
+/// MySQL `MODIFY COLUMN` replaces the whole column definition, so AUTO_INCREMENT has to be
+/// restated: it is set when the column belongs to an auto-increment primary key of the table
+/// and its type supports it (the same rule `build_create_table` applies).
+pub fn restate_mysql_auto_increment(
+    col: &mut SeaColumnDef,
+    table_def: &TableDef,
+    column: &ColumnDef,
+) {
+    let in_auto_increment_pk = table_def.constraints.iter().any(|c| {
+        matches!(
+            c,
+            TableConstraint::PrimaryKey {
+                columns,
+                auto_increment: true,
+            } if columns.iter().any(|name| name == &column.name)
+        )
+    });
+    if in_auto_increment_pk && column.r#type.supports_auto_increment() {
+        col.auto_increment();
+    }
+}
+
+/// Restate the attributes `build_sea_column_def_with_table` does not carry but a MySQL
+/// `MODIFY COLUMN` would otherwise erase: AUTO_INCREMENT and COMMENT.
+pub fn restate_mysql_column_attributes(
+    col: &mut SeaColumnDef,
+    table_def: &TableDef,
+    column: &ColumnDef,
+) {
+    restate_mysql_auto_increment(col, table_def, column);
+    if let Some(comment) = &column.comment {
+        col.comment(comment.as_str());
+    }
 }
 
 /// Generate CREATE TYPE SQL for an enum type (PostgreSQL only)
